@@ -160,6 +160,13 @@ def r31_r32(chk, m):
         ('doubly nested', [OPEN, 'ifx', 'fi', 'fi', 'a', 'fi'], True, [OPEN, 'ifx', 'fi', 'fi', 'a'], 6),
         ('newif does not open a conditional', ['newif', 'iffoo', 'a', 'else', 'b', 'fi'], True, ['newif', 'iffoo', 'a'], 6),
         ('newif inside a nested conditional', [OPEN, 'newif', 'iffoo', 'fi', 'a', 'fi'], True, [OPEN, 'newif', 'iffoo', 'fi', 'a'], 6),
+        ('empty true branch before a non-empty else', ['else', 'b', 'fi', 'c'], True, [], 3),
+        ('empty else branch', ['a', 'else', 'fi', 'c'], False, [], 3),
+        ('newif directly followed by a conditional', ['newif', 'iffoo', OPEN, 'x', 'else', 'y', 'fi', 'a', 'else', 'b', 'fi', 'rest'], True,
+         ['newif', 'iffoo', OPEN, 'x', 'else', 'y', 'fi', 'a'], 11),
+        ('newif directly followed by a conditional, skipped', ['newif', 'iffoo', OPEN, 'x', 'fi', 'a', 'else', 'b', 'fi', 'rest'], False, ['b'], 9),
+        ('two newif declarations in a row', ['newif', 'iffoo', 'newif', 'ifbar', 'a', 'fi', 'rest'], True, ['newif', 'iffoo', 'newif', 'ifbar', 'a'], 6),
+        ('an empty case between two \\or', ['a', 'or', 'or', 'c', 'else', 'd', 'fi'], 1, [], 7),
         ('case 0', ['a', 'or', 'b', 'or', 'c', 'else', 'd', 'fi'], 0, ['a'], 8),
         ('case 1', ['a', 'or', 'b', 'or', 'c', 'else', 'd', 'fi'], 1, ['b'], 8),
         ('case 2', ['a', 'or', 'b', 'or', 'c', 'else', 'd', 'fi'], 2, ['c'], 8),
